@@ -385,6 +385,13 @@ def discharge(site, fx, policy):
                             return "D-counter: 64-bit local counter incremented by 1 per loop iteration (cannot reach 2^64 iterations)"
                         if l.get("ty") == "u32" and policy.get("a_size"):
                             return "D-counter-u32: 32-bit counter incremented once per parsed record (assumption A-size: input < 4 GiB)"
+                # i += 1 under a dominating i < len(x): i + 1 <= len(x) <= isize::MAX
+                if one == 1 and lhs.get("k") in ("Var", "Upvar"):
+                    for f, pol in get_facts():
+                        f = F.strip(f)
+                        if pol and f.get("k") == "Binary" and f["op"] == "Lt" and FL.same_place(f["l"], lhs) and F.is_call(FL.peel(f["r"]), *LEN_CALLS) \
+                                and not modified_before(lhs, n, site.parents):
+                            return "D-guard-lt-len: i += 1 dominated by i < len(x)"
                 # running total of per-record counters: `total += x.count` in a loop where `count` is only ever `+= 1`-incremented
                 rr = F.strip(r)
                 if rr.get("k") == "Field" and in_loop(site.parents) and F.strip(l).get("k") in ("Var", "Upvar") \
@@ -423,6 +430,10 @@ def discharge(site, fx, policy):
                 ub = upper_bound(r, fam)
                 if ub is not None and ub <= lv:
                     return "D-sub-bound: %d - r with r <= %d" % (lv, ub)
+            # x - 1 (or x -= 1) under a dominating x > 0 on the same, not yet modified binding
+            if int_lit(r) == 1 and FL.peel(l).get("k") in ("Var", "Upvar") and (FL.peel(l).get("ty") or site.ty or "").startswith("u"):
+                if positive_fact(FL.peel(l), get_facts()) and not modified_before(FL.peel(l), n, site.parents):
+                    return "D-guard-pos: dominated by x > 0 on the same binding"
             # len(x) - b  with dominating starts_with/ends_with recipe
             rec = recipe_prefix_suffix(l, r, None, get_facts())
             if rec:
@@ -449,6 +460,19 @@ def discharge(site, fx, policy):
                 if not pol and F.is_call(f, "core::slice::<impl [T]>::is_empty", "core::str::<impl str>::is_empty") \
                         and FL.same_place(f["args"][0], base) and not reassigned(base, fam):
                     return "D-nonempty-idx0: dominated by !is_empty() on the same binding"
+        ix = FL.peel(n["index"])
+        # x[i] under a dominating `i < x.len()` (loop / if condition), i not modified in between
+        if ix.get("k") in ("Var", "Upvar"):
+            for f, pol in get_facts():
+                f = F.strip(f)
+                if pol and f.get("k") == "Binary" and f["op"] == "Lt" and FL.same_place(f["l"], ix) and F.is_call(FL.peel(f["r"]), *LEN_CALLS) \
+                        and FL.same_place(FL.peel(f["r"])["args"][0], base) and not modified_before(ix, n, site.parents):
+                    return "D-guard-lt-len: dominated by i < len(x) on the same bindings"
+        # x[i - 1] under a dominating `i > 0`, where i only ever moves down from an in-bounds index of x
+        if ix.get("k") == "Binary" and ix["op"] == "Sub" and int_lit(ix["r"]) == 1 and FL.peel(ix["l"]).get("k") in ("Var", "Upvar"):
+            iv = FL.peel(ix["l"])
+            if positive_fact(iv, get_facts()) and not modified_before(iv, n, site.parents) and descending_index_of(iv, base, fam):
+                return "D-descending-index: i starts at an in-bounds index of x, only decreases, and i > 0 here => i - 1 < len(x)"
         return None
 
     if site.kind == "call":
@@ -686,6 +710,82 @@ def pos_over_same(x, pos, fam, depth=0):
         # the sequence binding must not change between the search and the slice
         return None
     return "split point is the payload of position()/binary_search over the same (unmodified) sequence"
+
+
+def positive_fact(v, facts):
+    """a dominating fact says v > 0 (v > 0, 0 < v, v != 0, v >= 1)"""
+    for f, pol in facts:
+        f = F.strip(f)
+        if f.get("k") != "Binary":
+            continue
+        l_, r_ = FL.peel(f["l"]), FL.peel(f["r"])
+        if pol and f["op"] == "Gt" and FL.same_place(l_, v) and int_lit(r_) == 0:
+            return True
+        if pol and f["op"] == "Lt" and FL.same_place(r_, v) and int_lit(l_) == 0:
+            return True
+        if pol and f["op"] == "Ne" and FL.same_place(l_, v) and int_lit(r_) == 0:
+            return True
+        if (not pol) and f["op"] == "Eq" and FL.same_place(l_, v) and int_lit(r_) == 0:
+            return True
+        if pol and f["op"] == "Ge" and FL.same_place(l_, v) and (int_lit(r_) or 0) >= 1:
+            return True
+    return False
+
+
+def modified_before(v, site_node, parents):
+    """v is assigned / mutably borrowed somewhere in the innermost guarded region (the enclosing `if`/`while` body or the
+    right operand of `&&`) textually before site_node. Conservative: any other write to v inside that region counts."""
+    region = None
+    chain = list(parents) + [site_node]
+    for i in range(len(chain) - 2, -1, -1):
+        p = chain[i]
+        if p.get("k") == "If" and chain[i + 1] is p.get("then"):
+            region = p["then"]; break
+        if p.get("k") == "Logical" and chain[i + 1] is p.get("r"):
+            region = p["r"]; break
+    if region is None:
+        return True
+    for x in F.walk(region):
+        if x is site_node:
+            continue
+        k = x.get("k")
+        if k in ("Assign", "AssignOp") and FL.same_place(x["l"], v) and not any(y is site_node for y in F.walk(x)):
+            # a write other than the site itself; allowed only if it comes after the site (the site is inside an earlier statement)
+            if not _comes_after(region, site_node, x):
+                return True
+        if k == "Borrow" and x.get("mut") and FL.same_place(x["e"], v):
+            return True
+    return False
+
+
+def _comes_after(region, first, second):
+    order = [id(x) for x in F.walk(region)]
+    try:
+        return order.index(id(second)) > order.index(id(first))
+    except ValueError:
+        return False
+
+
+def descending_index_of(v, base, fam):
+    """v's sources: one `let` whose initialiser is an in-bounds index of `base` (payload of binary_search / position over it),
+    every other write is `v -= <literal>`"""
+    srcs = fam.origins.sources(v["id"])
+    n_init = 0
+    for path, expr, how in srcs:
+        if how == "assignop":
+            if not (expr.get("k") == "AssignOp" and expr["op"].startswith("Sub") and (int_lit(expr["r"]) or 0) >= 0 and int_lit(expr["r"]) is not None):
+                return False
+            continue
+        if how != "let" or path != () or expr is None:
+            return False
+        n_init += 1
+        r = pos_over_same(base, expr, fam)
+        if not r or "payload" not in r or "+ 1" in r:
+            # the initialiser may itself be a variable holding the payload
+            e = FL.peel(expr)
+            if not (e.get("k") in ("Var", "Upvar") and pos_over_same(base, e, fam) and "payload" in pos_over_same(base, e, fam)):
+                return False
+    return n_init == 1
 
 
 def upper_bound(n, fam, depth=0):
